@@ -1089,6 +1089,85 @@ fn simulation_case(case: &mut Case) {
     crate::checks::c03::judge_discoveries(case, &model, "simulation", &cfg, &out, true);
 }
 
+/// Simulation with several workers and *no* state-count target: the only way to stop is the
+/// finish condition. Once it holds (observed through `discoveries()`), every worker may finish
+/// the trace at hand and must then stop. The verdict is a logical bound on the evaluations made
+/// after the condition was observed (a runaway worker exceeds any bound within milliseconds),
+/// not a deadline.
+fn simulation_finish_case(case: &mut Case) {
+    let mut g = gen_graph(&mut case.rng, &Knobs { max_n: 25, allow_outside_inits: false, ..Knobs::default() });
+    let reach = g.reach();
+    let near: Vec<usize> = (0..g.n).filter(|s| reach.reachable[*s] && reach.dist[*s] <= 2).collect();
+    if near.is_empty() {
+        case.distinct(g.structural_hash(), false);
+        return;
+    }
+    // 1-3 properties, each with a witness close to an initial state, so that random traces
+    // find them all
+    for _ in 0..case.rng.range(1, 3) {
+        let witness = *case.rng.pick(&near);
+        let sometimes = case.rng.pct(50);
+        let mut l = vec![!sometimes; g.n];
+        l[witness] = sometimes;
+        g.labels.push(l);
+        g.props.push((if sometimes { Expectation::Sometimes } else { Expectation::Always }, g.labels.len() - 1));
+    }
+    let nprops = g.props.len();
+    let n = g.n as u64;
+    case.distinct(g.structural_hash(), true);
+    let model = GraphModel(Arc::new(g));
+    case.sample(|| model.summary());
+    let threads = *case.rng.pick(&[2usize, 3, 4, 8]);
+    // the default finish condition (all properties) or an explicit one that needs them all
+    let mut b = model.clone().checker().threads(threads);
+    if case.rng.pct(50) {
+        b = b.finish_when(HasDiscoveries::AllOf(NAMES.iter().take(nprops).copied().collect()));
+    }
+    let mut c = b.spawn_simulation(case.rng.next_u64() % 1000, stateright::UniformChooser);
+    let hs = c.handles();
+    let wit = || json!({"model": model.summary(), "threads": threads});
+    let t = Instant::now();
+    // phase 1: wait until the condition holds
+    loop {
+        if guarded(|| c.discoveries().len()).unwrap_or(0) == nprops {
+            break;
+        }
+        if hs.iter().all(|h| h.is_finished()) {
+            break;
+        }
+        if t.elapsed() > Duration::from_secs(20) {
+            case.inconclusive("simulation did not find all witnesses within the watchdog");
+            return; // (the workers keep running until the process ends; the case is not judged)
+        }
+        std::thread::sleep(Duration::from_micros(200));
+    }
+    case.add("simulation_finish_conditions_observed", 1);
+    // phase 2: everybody stops after the trace at hand
+    let calls0 = model.actions_calls.load(Ordering::Relaxed);
+    let bound = 1000 * threads as u64 * (n + 1);
+    let t = Instant::now();
+    loop {
+        if hs.iter().all(|h| h.is_finished()) {
+            case.add("simulation_runs_stopped_by_finish_condition", 1);
+            return;
+        }
+        let after = model.actions_calls.load(Ordering::Relaxed) - calls0;
+        if after > bound {
+            case.violation(
+                "C05/simulation/workers-keep-simulating-after-the-finish-condition-holds",
+                json!({"run": wit(), "evaluations_after_the_condition_was_observed": after, "bound": bound,
+                       "workers_still_running": hs.iter().filter(|h| !h.is_finished()).count()}),
+            );
+            return;
+        }
+        if t.elapsed() > Duration::from_secs(30) {
+            case.inconclusive("simulation workers neither stopped nor exceeded the evaluation bound within the watchdog");
+            return;
+        }
+        std::thread::sleep(Duration::from_micros(500));
+    }
+}
+
 pub fn run(ctx: &mut Ctx) {
     ctx.rule = "Multi-threaded (2-32 threads) BFS/DFS/on-demand runs of G1 graphs, repeated under 7 perturbation \
         profiles (none, yield, spin, sleep, slow one worker, slow the sharer, slow wake-ups) injected at the \
@@ -1155,6 +1234,7 @@ pub fn run(ctx: &mut Ctx) {
     }
     set_profile(0, 0);
     ctx.cases("simulation", ctx.n(40, 1500), 0, simulation_case);
+    ctx.cases("simulation_finish_condition", ctx.n(60, 1500), 8, simulation_finish_case);
     ctx.info("perturbations_applied", json!(PERTURB_COUNT.load(Ordering::Relaxed)));
     verif::set_sink(None);
     verif::set_perturber(None);
